@@ -300,7 +300,7 @@ def classify(text, mode, sig):
         if fixed != text and evaluate(fixed, m) == "ok":
             mt = "\uff41"
             if evaluate(mt, m) == sig:
-                return f"{sig} @ repair:NFKC", mt, m
+                return f"{sig} @ {json.dumps(mt, ensure_ascii=True)}", mt, m
     mt = _minimiser().minimise(text, m, sig)
     shown = mt.rstrip("\n") if mt.rstrip("\n") else mt
     tag = "" if m == "exec" else f"[{m}] "
